@@ -34,7 +34,9 @@ type Mutex interface {
 type mutex struct {
 	// concurrency.Mutex is a session level mutex, so sync.Mutex is
 	// required to make it goroutine safe
-	lock    sync.Mutex
+	// the sync.Mutex is shared by all mutexes of the same name in this
+	// process, as they also share the etcd key (it is per session).
+	lock    *sync.Mutex
 	m       *concurrency.Mutex
 	timeout time.Duration
 }
@@ -71,7 +73,19 @@ func (c *cluster) Mutex(name string) (Mutex, error) {
 		return nil, err
 	}
 
+	c.mutexLocksMutex.Lock()
+	if c.mutexLocks == nil {
+		c.mutexLocks = make(map[string]*sync.Mutex)
+	}
+	lock := c.mutexLocks[name]
+	if lock == nil {
+		lock = &sync.Mutex{}
+		c.mutexLocks[name] = lock
+	}
+	c.mutexLocksMutex.Unlock()
+
 	return &mutex{
+		lock:    lock,
 		m:       concurrency.NewMutex(session, name),
 		timeout: c.requestTimeout,
 	}, nil
